@@ -96,6 +96,7 @@ def to_entry(name, d):
 
 
 _SHARED = {}
+_PARENT_PROBLEMS = []
 
 
 def register(d):
@@ -114,7 +115,9 @@ def register(d):
         text = use + b";" if d["role"] == "action" else b"if " + use + b" { keep; }"
         o = impl.parse_outcome(text)
         if o.verdict is not True:
-            raise core.HarnessError("parent command of a derived definition not usable: %r -> %s" % (text, o.summary()))
+            # the parent is itself a registered custom command and this is a valid use of it
+            _PARENT_PROBLEMS.append(("valid-use-rejected|parent-of-derived-class", {"text": text, "impl": o.summary(),
+                                                                                   "definition": pattrs["args_definition"]}))
         base = parent
     slots = [dict(x) for x in d["slots"]]
     if d.get("share"):
@@ -368,6 +371,9 @@ def worker(arg):
     @given(definitions(), st.data())
     def body(d, data):
         name = register(d)
+        while _PARENT_PROBLEMS:
+            b, det = _PARENT_PROBLEMS.pop()
+            col.fail(b, {"definition": d, "args": [], "kind": "parent"}, det)
         entry = to_entry(name, d)
         table = dict(TABLE)
         table[name.encode()] = entry
